@@ -333,7 +333,7 @@ _UTF8_CACHE = {}
 
 
 def encode_utf8(s, ctx):
-    s = concretize(Seq.of(s), ctx)
+    s = Seq.of(s)
     assert s.kind == 'str'
     segs = []
     for g in s.segs:
